@@ -104,11 +104,12 @@ Definition bin_static (pre : list cop) (b : bin) : Prop :=
   Forall (slot_ok pre (bops b)) (bslots b) /\
   (bbar b = false -> (forall o, In o (bops b) -> okind o = KGate) /\
                      length (bqudits b) <= Nat.max k (widest (bops b))) /\
-  (bbar b = true -> (forall o, In o (bops b) -> okind o <> KGate) /\ any_active b = false).
+  (bbar b = true -> (forall o, In o (bops b) -> okind o <> KGate) /\ any_active b = false) /\
+  (bslots b = [] -> bops b = []).
 
 Definition bin_dyn (st : state) (b : bin) : Prop :=
   (forall q, is_active b q = true -> nth q (act st) None = Some (bid b)) /\
-  (any_active b = true \/ In (bid b) (pend st)).
+  (any_active b = true \/ In (bid b) (pend st) \/ bslots b = []).
 
 Record inv (pre : list cop) (st : state) : Prop := {
   i_nd : NoDup (ids (bins st));
@@ -187,26 +188,28 @@ Proof. intros Hc Hp Hs I H. unfold close_bin in H.
   - intros x Hx. rewrite Hnext. rewrite Hpend in Hx. destruct (negb (any_active b')); auto.
     apply in_app_or in Hx as [Hx|[<-|[]]]; auto.
   - intros x Hx. destruct (Hold x Hx) as [->|[Hx' _]]; auto.
-    destruct (i_static0 b Gin) as (S1 & S2 & S3 & S4 & S5).
+    destruct (i_static0 b Gin) as (S1 & S2 & S3 & S4 & S5 & S6).
     split; [rewrite Hq; exact S1|]. split; [intros o Ho; rewrite Hq; apply S2; exact Ho|].
     split.
     { unfold b'. simpl. apply Forall_forall. intros s' Hs'. apply in_map_iff in Hs' as (s & <- & Hin).
       eapply slot_ok_close; eauto. rewrite Forall_forall in S3. apply S3; auto. }
     split.
     { intros Hb. rewrite Hq. apply S4. exact Hb. }
+    split.
     { intros Hb. destruct (S5 Hb) as [S5a S5b]. split; auto.
       destruct (any_active b') eqn:Aa; auto. apply any_active_ex in Aa as [q Aq].
       apply Hact' in Aq as [Aq _]. apply is_active_any in Aq. congruence. }
+    { unfold b'. simpl. intros Hm. apply S6. destruct (bslots b); [reflexivity| discriminate]. }
   - intros x Hx. destruct (Hold x Hx) as [->|[Hx' Hne']].
     + split.
       * intros q Aq. apply Hact' in Aq as [Aq Nq]. rewrite Hactm, nth_clear_act.
         apply memb_false in Nq. rewrite Nq. simpl. apply (i_dyn0 b Gin). exact Aq.
-      * rewrite Hpend, Hid. destruct (any_active b'); simpl; auto. right. apply in_or_app. right; left; auto.
+      * rewrite Hpend, Hid. destruct (any_active b'); simpl; auto. right; left. apply in_or_app. right; left; auto.
     + destruct (i_dyn0 x Hx') as [D1 D2]. split.
       * intros q Aq. rewrite Hactm, nth_clear_act, (D1 q Aq). simpl.
         destruct (Nat.eqb (bid x) (bid b)) eqn:E; [apply Nat.eqb_eq in E; congruence|].
         rewrite andb_false_r. reflexivity.
-      * destruct D2; auto.
+      * destruct D2 as [D2|[D2|D2]]; auto.
   - intros q id Hq'. rewrite Hactm, nth_clear_act in Hq'.
     destruct (memb q loc && opt_is (bid b) (nth q (act st) None)) eqn:E; [discriminate|].
     destruct (i_act0 q id Hq') as (x & Hx & Ex & Ax).
@@ -477,7 +480,7 @@ Proof. intros Hc I G Hk Hbar C1 C2 C3 SA.
   assert (Hxin : In (cur, o) c) by (rewrite Hc; apply in_or_app; right; left; auto).
   assert (Hlnd : NoDup (oloc o)) by (apply (Hnd _ Hxin)).
   assert (Hlne : oloc o <> []) by (apply (Hne _ Hxin)).
-  destruct (i_static0 sb Gin) as (S1 & S2 & S3 & S4 & S5).
+  destruct (i_static0 sb Gin) as (S1 & S2 & S3 & S4 & S5 & S6).
   assert (Hbins : putb sb' (bins st2) = l1 ++ sb' :: l2) by (rewrite Eb; apply putb_split; auto).
   assert (Hold : forall x, In x (l1 ++ sb' :: l2) -> x = sb' \/ (In x (bins st2) /\ bid x <> bid sb)).
   { intros x Hx. apply in_mid in Hx as [Hx|[Hx|Hx]]; auto; right; split.
@@ -506,7 +509,7 @@ Proof. intros Hc I G Hk Hbar C1 C2 C3 SA.
   - exact i_plt0.
   - rewrite Hbins. intros x Hx. destruct (Hold x Hx) as [->|[Hx' Hn]].
     + (* the selected bin *)
-      split; [|split; [|split; [|split]]].
+      split; [|split; [|split; [|split; [|split]]]].
       * rewrite Hqd. apply NoDup_app_intro; auto. intros q Hq Hq'.
         apply in_map_iff in Hq' as (s & Es & Hs). destruct (NW1 s Hs) as (_ & _ & _ & _ & Hn). subst q. auto.
       * rewrite Hops, Hqd. intros o' Ho' q Hq. apply in_app_or in Ho' as [Ho'|[<-|[]]].
@@ -538,9 +541,10 @@ Proof. intros Hc I G Hk Hbar C1 C2 C3 SA.
               lia.
            ++ rewrite Hlen. lia.
       * unfold sb'. simpl. rewrite Hbar. discriminate.
+      * intros Hm. unfold any_active in Hany'. rewrite Hm in Hany'. discriminate.
     + (* any other bin *)
-      destruct (i_static0 x Hx') as (T1 & T2 & T3 & T4 & T5).
-      split; [|split; [|split; [|split]]]; auto.
+      destruct (i_static0 x Hx') as (T1 & T2 & T3 & T4 & T5 & T6).
+      split; [|split; [|split; [|split; [|split]]]]; auto.
       apply Forall_forall. intros s Hs. apply slot_ok_other; [rewrite Forall_forall in T3; auto|].
       intros As. destruct (touch (sq s) (cur, o)) eqn:T; auto. exfalso.
       apply touch_loc in T. apply (Hoth x Hx' Hn (sq s)); auto. apply is_active_slot. eauto.
@@ -613,7 +617,7 @@ Proof. intros I Hb Hp Hr. destruct I.
   pose proof (In_getb _ _ i_nd0 Hb) as G.
   destruct (getb_split _ _ _ i_nd0 G) as (l1 & l2 & Eb & N1 & N2).
   assert (Hina : any_active b = false) by (eapply i_pend0; eauto).
-  destruct (i_static0 b Hb) as (S1 & S2 & S3 & S4 & S5).
+  destruct (i_static0 b Hb) as (S1 & S2 & S3 & S4 & S5 & S6).
   assert (Hbins : bins (emit ncyc b st) = l1 ++ l2) by (simpl; rewrite Eb; apply delb_split; auto).
   assert (Hsub : forall x, In x (l1 ++ l2) -> In x (bins st) /\ bid x <> bid b).
   { intros x Hx. apply in_app_or in Hx as [Hx|Hx]; split.
@@ -642,8 +646,8 @@ Proof. intros I Hb Hp Hr. destruct I.
       apply (merge_rear_preserves k) in M; auto.
       + destruct M. eexists. split; [reflexivity|]. rewrite unfold_app. simpl. rewrite app_nil_r.
         split; auto. split; auto. split; [|split].
-        * apply Forall_app. split; auto.
-        * apply Forall_app. split; auto. constructor; auto.
+        * apply Forall_app. split; [assumption|]. constructor; [assumption|constructor].
+        * apply Forall_app. split; [assumption|]. constructor; [exact m_gates|constructor].
         * intros x Hx. apply in_app_or in Hx as [Hx|[Hx|[]]]; [auto| discriminate].
       + split; [rewrite sort_length; exact K2|]. split; [apply sort_NoDup; exact S1|].
         intros o Ho q Hq. apply sort_In. eapply S2; eauto. }
@@ -655,7 +659,7 @@ Proof. intros I Hb Hp Hr. destruct I.
   - simpl. intros id Hid. apply remove_first_incl in Hid. auto.
   - rewrite Hbins. intros x Hx. apply Hsub in Hx as [Hx _]. auto.
   - rewrite Hbins. intros x Hx. apply Hsub in Hx as [Hx Hn]. destruct (i_dyn0 x Hx) as [D1 D2].
-    split; simpl; auto. destruct D2 as [D2|D2]; auto. right. apply remove_first_other; auto.
+    split; simpl; auto. destruct D2 as [D2|[D2|D2]]; auto. right; left. apply remove_first_other; auto.
   - rewrite Hbins. simpl. intros q id Hq. destruct (i_act0 q id Hq) as (x & Hx & Ex & Ax).
     exists x. split; auto. rewrite Eb in Hx. apply in_mid in Hx as [Hx|[Hx|Hx]]; [apply in_or_app; auto| | apply in_or_app; auto].
     subst x. apply is_active_any in Ax. congruence.
